@@ -66,7 +66,21 @@ with open(os.path.join(VERIF, "findings", "mutsweep", "TRIAGE.md"), "w") as fh:
         (r"_executor_manager_thread_wakeup\.wakeup\(\)$", "the first of the two wake-ups in submit is redundant since the D1 repair (the second one follows the spawn)"),
         (r"_threads_wakeups\.pop", "WeakKeyDictionary entry of a joined thread: dropped by GC anyway"),
     ]
+    OPV = [
+        # by operator and construct (the operators added after the first triage)
+        ("ARGSWAP", r"^(max|min)\(", "min / max are commutative: equivalent"),
+        ("ARGSWAP", r"getattr\(|reduction\.dump\(|dump\(obj|loky_pickler_cls\.__init__|super\(\)\._on_queue_feeder_error|util\.Finalize|register_after_fork|map\(int", "arguments of different types swapped: TypeError / AttributeError at the first call (every test fails)"),
+        ("ARGSWAP", r"os\.waitpid", "waitpid(0, pid): reaping of a dead tracker only (warning path)"),
+        ("PAIRSWAP", r".", "the two ends of a fresh pipe / the two results of a helper swapped: the first use fails (every test fails)"),
+        ("CONST", r"^(3|8|9|11|14)$", "component of a python-version tuple: other build arm"),
+        ("CONST", r"^2$", "factor of the call-queue capacity: any factor >= 1 keeps capacity >= max_workers (R-QUEUE-CAP evaluates the term); performance only"),
+        ("CONST", r"^20$", "exit priority of the at-exit hook registration"),
+        ("ARGSWAP", r"kwargs\.get\(", "key and default swapped: the default (a str / None) is returned, `chunksize < 1` raises TypeError at the first map call"),
+        ("CONST", r"^(0|1|5|10|30)$", "a flag / exit status / priority / time-out constant of a call no property speaks about (fork_exec positional flags, exitpriority, sys.exit status, the 30 s hand-shake bound), or an index whose change fails at once"),
+    ]
     for r in sorted(rest, key=lambda r: (r["path"], r["line"])):
-        v = next((why for pat, why in VERDICTS if re.search(pat, r["before"])), "not classified")
+        v = next((why for pat, why in VERDICTS if re.search(pat, r["before"])), None)
+        if v is None:
+            v = next((why for op, pat, why in OPV if r["op"].startswith(op) and re.search(pat, r["before"])), "not classified")
         fh.write(f"* `{r['path']}:{r['line']}` {r['op']} in `{r['func']}`: `{r['before'][:100]}` -- {v}\n")
 print(tot, {c: len(v) for c, v in cats.items() if v}, len(rest))
